@@ -1476,6 +1476,9 @@ def check_c13(tier, seed, log=print):
                              samples=samples, callback_kinds_used=kinds, definitions_with_callbacks=len(cbdefs),
                              model_vs_impl_disagreements=dis, impl_vs_oracle_failures=len(fails)))
     run.assumptions += ['callback bodies are executed, not modelled: the zoo implements the same pure decision function on both sides']
+    # how an inline callback is emitted (D17): CallbackEmit.emitFixed vs the generated text
+    import cbemittie
+    run.coverage['inline_callback_emission_model'] = cbemittie.tie(run)
     return run.finish()
 
 
